@@ -433,6 +433,22 @@ func genExtra(r *vlib.R, tier string, emit func(string)) {
 		emit("accept " + strings.Join(ks, ","))
 	}
 	emit("accept -")
+	// the writer stack: cache wrapper (or not) over edns over the base writer
+	for i := 0; i < rounds*12; i++ {
+		proto := vlib.Pick(r, []string{"udp", "udp", "tcp"})
+		size := vlib.Pick(r, []int{512, 1232, 60, 4096})
+		emit(fmt.Sprintf("ws new %s %s %s %s %d %s", vlib.B(r.Bool()), proto, vlib.B(r.Bool()), vlib.B(r.Chance(1, 4)), size, vlib.B(r.Chance(1, 3))))
+		for k := 0; k < 2+r.Intn(5); k++ {
+			switch r.Intn(5) {
+			case 0, 1:
+				emit(fmt.Sprintf("ws writemsg %s %s", vlib.Pick(r, []string{"plain", "plain", "exotic"}), vlib.B(r.Chance(1, 5))))
+			case 2, 3:
+				emit(fmt.Sprintf("ws writewire %d %s %s", vlib.Pick(r, []int{5, 11, 12, 45, 50, 60, 300, 600}), vlib.B(r.Chance(1, 3)), vlib.B(r.Chance(1, 5))))
+			default:
+				emit(fmt.Sprintf("ws commit %d %s %s", vlib.Pick(r, []int{11, 45, 55, 300, 1230}), vlib.B(r.Chance(1, 3)), vlib.B(r.Chance(1, 5))))
+			}
+		}
+	}
 	// the connection's drain buffer: replies of every size class staged and flushed in every order, the
 	// peer leaving at any point
 	emit("drain new")
